@@ -103,7 +103,7 @@ type Template struct {
 	Autoescape  string // "" | true | false | contextual
 	Private     bool
 	Body        []Node
-	NoDoc       bool // no soydoc block at all (only legal without params)
+	NoDoc       bool        // no soydoc block at all (only legal without params)
 	SoydocExtra []ParamDecl // params additionally declared in soydoc although HeaderStyle is set (violates the one-style rule)
 }
 type File struct {
